@@ -9,7 +9,7 @@ from props.common import sub_rng, diff_runs, replay_generic, corpus_cases
 replay = replay_generic
 POOL = ['1+2;', '"s";', 'nil;', '[1,"a"];', '%s 7;' % PRINT, '%s x = 5;' % VAR, 'x;', '1/0;', '%s(-3);' % ABS, '@;', '"open', '%s 1' % PRINT, '}', '{ 1; 2; }', '',
         '%s (i = 0; i < 2; i = i + 1) { i; }' % FOR, '%s f() { 5; %s 6; } f();' % (FUN, RETURN), '%s 1;' % RETURN, '{a: 1};', '1 2', '%s;' % LEN, '1.5;', '%s;' % BREAK,
-        '%s a = [1]; a[0] = a; a;' % VAR if False else '"অা";']
+        '"অা";', '%s = 5;' % LEN, '%s([1, 2, 3]);' % LEN, '%s = 5; x;' % LEN, '%s = nil; 1/0;' % ABS, '%s(-2);' % ABS]
 
 
 def split_responses(out):
